@@ -171,6 +171,66 @@ def accept_case(ctx, rng, n, m):
     return line, [enc(i) for i in pop], flags
 
 
+def accept_steps_in_run(ctx, rng, N, G, seed):
+    """A real EpsMOEA run on a plateau problem (many exactly tied costs); every acceptance step is recorded:
+    (population before, textbook dominance flags of the offspring, random picks, population after)."""
+    import artap.operators as ops
+    from artap.problem import Problem
+    from artap.algorithm_genetic import EpsMOEA
+    steps = []
+    orig = ops.Selector.pop_acceptance
+    real_choice = random.choice
+
+    def enc(ind):
+        return [phi(v) for v in ind.vector]
+
+    def recording(self, individuals, individual):
+        before = list(individuals)
+        flags = [spec_pareto(individual.costs_signed[:-1], i.costs_signed[:-1], individual.costs_signed[-1], i.costs_signed[-1])
+                 for i in before]
+        picks = {"p1": 0, "p2": 0}
+
+        def choice(seq):
+            c = real_choice(seq)
+            if seq and isinstance(seq[0], int):
+                picks["p1"] = list(seq).index(c)
+            else:
+                picks["p2"] = [id(o) for o in seq].index(id(c))
+            return c
+        random.choice = choice
+        try:
+            orig(self, individuals, individual)
+        finally:
+            random.choice = real_choice
+        steps.append(("c09.accept %s|%s|%s|%d,%d" % (mat([enc(i) for i in before]), vec(flags), vec(enc(individual)),
+                                                      picks["p1"], picks["p2"]),
+                      [enc(i) for i in individuals], flags,
+                      {"population_costs": [list(map(float, i.costs_signed[:-1])) for i in before],
+                       "offspring_costs": list(map(float, individual.costs_signed[:-1]))}))
+
+    class Plateau(Problem):
+        def set(self, **kw):
+            self.name = "plateau"
+            self.parameters = [{"name": "a", "bounds": [0.0, 4.0]}, {"name": "b", "bounds": [0.0, 4.0]}]
+            self.costs = [{"name": "f1", "criteria": "minimize"}, {"name": "f2", "criteria": "minimize"}]
+
+        def evaluate(self, ind):
+            return [float(int(ind.vector[0])), float(int(4.0 - ind.vector[0]) if ind.vector[1] > 1.0 else 4.0)]
+
+    random.seed(seed)
+    p = Plateau()
+    a = EpsMOEA(p)
+    a.options["max_population_size"] = N
+    a.options["max_population_number"] = G
+    ops.Selector.pop_acceptance = recording
+    try:
+        with open(os.devnull, "w") as dn, contextlib.redirect_stdout(dn), contextlib.redirect_stderr(dn):
+            a.run()
+    finally:
+        ops.Selector.pop_acceptance = orig
+    return steps
+
+
 def run(ctx):
     rng = ctx.rng
     ctx.rule = ("real runs over a grid of (algorithm, N, G, dimension, objectives, fault probability); scripted generate "
@@ -248,6 +308,9 @@ def run(ctx):
         alines.append(line)
         aobs.append(obs)
         aflags.append(flags)
+    stream_accept_in_runs(ctx)
+    if ctx.failures:
+        return
     aans = ctx.lean(alines)
     for line, obs, flags, ans in zip(alines, aobs, aflags, aans):
         ctx.case(("acc", line), nontrivial=(1 in flags or 2 in flags), sample={"accept": line})
@@ -256,6 +319,25 @@ def run(ctx):
             ctx.fail("pop-acceptance", "pop_acceptance left population %s, the model (popAccept_cases) gives %s for request %s" % (mat(obs), ans, line),
                      {"op": "accept", "request": line, "observed": obs, "model": ans})
             break
+
+
+def stream_accept_in_runs(ctx):
+    rng = ctx.rng
+    steps = []
+    for _ in range(6 if ctx.quick else 60):
+        steps += accept_steps_in_run(ctx, rng, rng.choice([3, 4, 6]), rng.choice([2, 3]), rng.randrange(10 ** 6))
+    ans = ctx.lean([s[0] for s in steps])
+    for (line, after, flags, info), a in zip(steps, ans):
+        tie = any(f == 0 and pc == info["offspring_costs"] for f, pc in zip(flags, info["population_costs"]))
+        ctx.case(("acc-run", line), nontrivial=(1 in flags or 2 in flags or tie), sample={"accept_in_epsmoea_run": line})
+        ctx.count("epsmoea_accept_" + ("dominates" if 1 in flags else "dominated" if 2 in flags else "tied" if tie else "neutral"))
+        if mat(after) != a:
+            kind = ("dominates members" if 1 in flags else "is dominated without dominating" if 2 in flags else
+                    "neither dominates nor is dominated (costs %r, members %r)" % (info["offspring_costs"], info["population_costs"]))
+            ctx.fail("pop-acceptance", "acceptance step inside an EpsMOEA run: the offspring %s; the population afterwards is %s, "
+                     "the model (popAccept_cases) gives %s" % (kind, mat(after), a),
+                     {"op": "accept", "request": line, "observed": after, "model": a, "costs": info})
+            return
 
 
 def replay(ctx, rp):
